@@ -55,6 +55,9 @@ def main():
         if ctx.failing_inputs:
             for f in ctx.failing_inputs:
                 res.violation(f["what"], f, True)
+            for b in broken:
+                if b["kind"] != "correspondence":
+                    res.violation(b["what"], dict(broken=[b]), False)
         elif broken:
             found = []
             if hasattr(mod, "search"):
@@ -72,7 +75,8 @@ def main():
         res.violation("check crashed: %r" % (e,), {"traceback": traceback.format_exc()[-3000:]}, False)
         res.cov.setdefault("evaluations", 1)
         rc = res.finish()
-    vlib.log("[%s] tier=%s seed=%d exit=%d wall=%.1fs" % (a.pid, tier, seed, rc, res.cov.get("wall", 0) or 0))
+    import time
+    vlib.log("[%s] tier=%s seed=%d exit=%d wall=%.1fs" % (a.pid, tier, seed, rc, time.time() - res.t0))
     sys.exit(rc)
 
 
